@@ -14,6 +14,16 @@ from ..prog import Inst, errtok, flatten, HarnessError, SimError
 A = real.A
 
 
+class _CustomAwaitable(object):
+    """An awaitable that is neither a coroutine nor an asyncio Future."""
+
+    def __init__(self, coro):
+        self._coro = coro
+
+    def __await__(self):
+        return self._coro.__await__()
+
+
 class VLoop(asyncio.SelectorEventLoop):
     """Virtual-time event loop: time() is simulated; when nothing is ready the clock jumps to the
     next timer, so seeded delays cost nothing."""
@@ -150,7 +160,24 @@ class C15(object):
     def shrink_budget(self, tier):
         return (300, 25.0)
 
+    def _wide(self, rng):
+        """One yield of a few hundred awaitables, one of the first of which fails at once while the
+        others still have suspension points: the failure is delivered after all of them finished."""
+        n = rng.choice([130, 200, 300])
+        pos = rng.randint(0, 100)
+        calls = [["call", 1, []] for _ in range(n)]
+        calls[pos] = ["call", 2, []]
+        root = [["try", [["y", [rng.choice(["l", "t"]), calls]]], "all", []]] if rng.random() < 0.5 else [["y", [rng.choice(["l", "t"]), calls]]]
+        leaf = {"kind": "aiofn", "steps": [["ret", "const"]], "delay_ms": rng.randint(1, 20), "aio_raises": False,
+                "aio_returns_task": rng.random() < 0.3, "aio_custom_awaitable": False}
+        bad = {"kind": "fn", "steps": [["raise", "e%d" % rng.randint(0, 9)]]}
+        spec = {"templates": [{"kind": "fn", "steps": root}, leaf, bad], "root": {"tmpl": 0, "conv": "call"}, "kinds": 1, "svs": 1,
+                "yield_only": True, "reentry": False, "faults": {"items": {}, "flushes": {}, "ctx": {}}, "prio": {}}
+        return {"computations": [{"spec": spec, "offset_ms": 0}]}
+
     def gen(self, rng, tier, k):
+        if k % 40 == 9:
+            return self._wide(rng)
         ncomp = rng.randint(1, 3)
         comps = []
         for _ in range(ncomp):
@@ -168,6 +195,8 @@ class C15(object):
                     t["delay_ms"] = rng.randint(0, 30)
                     t["aio_raises"] = rng.random() < 0.25
                     t["aio_returns_task"] = rng.random() < 0.4
+                    # ... or an object of the user's own with __await__ (any Awaitable will do)
+                    t["aio_custom_awaitable"] = t["delay_ms"] % 3 == 0
                     t["steps"] = [["raise", "aio%d" % rng.randint(0, 9)]] if t["aio_raises"] else [["ret", "const"]]
                 elif rng.random() < 0.08 and t["steps"] and t["steps"][-1][0] not in ("ret", "res"):
                     # a task whose value is an exception instance (returned, not raised)
@@ -331,7 +360,12 @@ class C15(object):
                         inst.n += 1
                         raise e
                     return prog.task_value(inst, "const")
-                if t.get("aio_returns_task"):
+                if t.get("aio_custom_awaitable"):
+                    def afn_custom(inst, afn=afn):
+                        B.probes["custom_awaitable"] += 1
+                        return _CustomAwaitable(afn(inst))
+                    fn = A.asynq(asyncio_fn=afn_custom)(gen_body)
+                elif t.get("aio_returns_task"):
                     # the explicit asyncio_fn hands back an asyncio Task (an awaitable that is not
                     # a coroutine) instead of being a coroutine function
                     def afn_task(inst, afn=afn):
